@@ -347,7 +347,7 @@ V("C18.canary", ["C18"], "merge_canary", "second_pass_merge", "Merge::second_pas
 B("C18.fragments_to_node_switches", ["C18", "C02"], CB, "bounded_fragments_to_node_switches", "CellBuffer::fragments_to_node (real style / defs / FragmentTree)",
   "root = svg[xmlns, width=w, height=h, class=svgbob]; children = [style]? [defs]? [rect.backdrop 0,0,w,h]? ++ fragment nodes; "
   "geometry identical whatever the switches",
-  "8 switch combinations x 4 canvas sizes x 0..2 line fragments (sauron Node construction exceeds Kani: > 25 min even for concrete inputs)")
+  "8 switch combinations x 4 canvas sizes x 0..2 line fragments x settings strings x {no legend, a legend rule} (sauron Node construction exceeds Kani: > 25 min even for concrete inputs)")
 B("sink.style_text", ["C02", "C08"], CB, "bounded_style_sink", "CellBuffer::style",
   "the style element has exactly one text child; no raw '<'; every '&' starts one of the five entities; only XML chars; un-escaping returns the payload",
   "payloads of length <= 3 (thorough 4) over {<,&,>,],a,;,LF,U+0001,U+FFFE,\",'} in 3 channels: legend css, font family, stroke colour")
@@ -642,3 +642,7 @@ def _finish_canaries():
 
 
 _finish_canaries()
+
+B("C18.override_size", ["C18"], CB, "bounded_override_size", "CellBuffer::get_node_override_size vs get_node_with_size",
+  "root and backdrop carry the overridden size; every other child is identical to the computed-size rendering, also when the size is smaller than the drawing",
+  "6 diagrams (empty, text, box, grouped strokes, circle + far box, legend) x 8 switch combinations x 4 sizes")
